@@ -21,6 +21,9 @@ CONSTANTS
   GenCheck = TRUE
   ModernUnsub = TRUE
   ForeignUnsub = TRUE
+  Listeners = {}
+  MaxListens = 0
+  FailUndo = TRUE
   Stepwise = TRUE
   Gates = FALSE
   GateNames = {}
